@@ -334,7 +334,7 @@ func (m *miniInterp) execList(list []ast.Stmt, env *menv) (bool, outcome, error)
 // comparison whose other operand is the same field of another parameter or a
 // constant; parameters themselves are only nil-tested, selected, or passed on
 // to package functions for which the same holds.
-func onlyCompared(pkg *packages.Package, fd *ast.FuncDecl, fns map[string]*ast.FuncDecl, seen map[string]bool) error {
+func onlyCompared(pkg *packages.Package, fd *ast.FuncDecl, fns map[string]*ast.FuncDecl, seen map[string]bool, allowZeroConst bool) error {
 	if seen[fd.Name.Name] {
 		return nil
 	}
@@ -397,7 +397,13 @@ func onlyCompared(pkg *packages.Package, fd *ast.FuncDecl, fns map[string]*ast.F
 			}
 			other = ast.Unparen(other)
 			if tv, ok := info.Types[other]; ok && tv.Value != nil {
-				return true
+				if allowZeroConst {
+					if v, ok := constant.Int64Val(constant.ToInt(tv.Value)); ok && v == 0 {
+						return true
+					}
+				}
+				err = und("%s: field %s is compared with the constant %s: the result then depends on more than the mutual ordering of the arguments (the finite abstraction is not exact)", fd.Name.Name, types.ExprString(pp), tv.Value.String())
+				return false
 			}
 			if os, ok := other.(*ast.SelectorExpr); ok && os.Sel.Name == pp.Sel.Name {
 				if oid, ok := ast.Unparen(os.X).(*ast.Ident); ok && params[info.Uses[oid]] {
@@ -416,7 +422,7 @@ func onlyCompared(pkg *packages.Package, fd *ast.FuncDecl, fns map[string]*ast.F
 			obj := core.CalleeObj(info, pp)
 			if f, ok := obj.(*types.Func); ok && f.Pkg() == pkg.Types {
 				if callee := fns[f.Name()]; callee != nil {
-					if e2 := onlyCompared(pkg, callee, fns, seen); e2 != nil {
+					if e2 := onlyCompared(pkg, callee, fns, seen, allowZeroConst); e2 != nil {
 						err = e2
 						return false
 					}
@@ -483,7 +489,7 @@ func RunTimepb(c *core.Ctx) {
 	m := &miniInterp{pkg: pkg, fns: fns}
 
 	// ---- TIME.cmp: Compare on the 9 orderings of (Seconds, Nanos)
-	if err := onlyCompared(pkg, fns["Compare"], fns, map[string]bool{}); err != nil {
+	if err := onlyCompared(pkg, fns["Compare"], fns, map[string]bool{}, false); err != nil {
 		c.Undec("TIME.cmp", "timepb.Compare side-condition", err.Error(), pos("Compare"), src)
 	} else {
 		c.Ok("TIME.cmp", "timepb.Compare side-condition", "fields of t1,t2 are touched only through comparisons with the same field of the other argument", pos("Compare"), src)
@@ -544,7 +550,7 @@ func RunTimepb(c *core.Ctx) {
 	}
 
 	// ---- TIME.neg: DurationIsNegative on the 9 sign combinations
-	if err := onlyCompared(pkg, fns["DurationIsNegative"], fns, map[string]bool{}); err != nil {
+	if err := onlyCompared(pkg, fns["DurationIsNegative"], fns, map[string]bool{}, true); err != nil {
 		c.Undec("TIME.neg", "timepb.DurationIsNegative side-condition", err.Error(), pos("DurationIsNegative"), src)
 	} else {
 		c.Ok("TIME.neg", "timepb.DurationIsNegative side-condition", "fields of d are only compared with constants", pos("DurationIsNegative"), src)
@@ -581,7 +587,7 @@ func RunTimepb(c *core.Ctx) {
 
 	// ---- TIME.ovf.fn: overflowPanic panics iff the result moved against the sign
 	oparams := paramNames(fns["overflowPanic"])
-	if err := onlyCompared(pkg, fns["overflowPanic"], fns, map[string]bool{}); err != nil {
+	if err := onlyCompared(pkg, fns["overflowPanic"], fns, map[string]bool{}, false); err != nil {
 		c.Undec("TIME.ovf", "timepb.overflowPanic side-condition", err.Error(), pos("overflowPanic"), src)
 	}
 	for _, so := range []int{-1, 0, 1} {
